@@ -799,6 +799,71 @@ func ruleParse(c *Ctx) {
 				b.Name()+" is documented as `"+strings.TrimSpace(doc)+"`", "`"+text+"` is registered with "+b.Name()+" (documented for `"+strings.TrimSpace(doc)+"`)"+map[bool]string{true: "", false: " and the lexer's built-in table uses " + lexTbl[k.Name()]}[okLex]+": a user operator with a power between the two binds differently around this form")
 		}
 	}
+	// PARSE-9: after the dot any token is a member name. `x.f(a)` is the explicit form of every call f(x, a), and f can be any
+	// registered name: a symbol, `true`/`false`, a symbolic operator, an identifier-like operator (which has a token kind of
+	// its own). parseDot therefore takes the next token unconditionally and puts no condition on its kind; a restriction
+	// "for better error messages" makes some operator's method form a syntax error while its infix form still parses.
+	if pd := c.FuncDecl("parser", "parseDot"); pd != nil {
+		var nameObj types.Object
+		inspectNoLit(pd.Body, func(x ast.Node) bool {
+			if as, ok := x.(*ast.AssignStmt); ok && len(as.Lhs) == 1 && len(as.Rhs) == 1 && nameObj == nil {
+				if ce, ok := unparen(as.Rhs[0]).(*ast.CallExpr); ok && c.calleeName(ce) == "parser.parser.eat" {
+					nameObj = c.objOf(as.Lhs[0])
+				}
+			}
+			return true
+		})
+		ok9, why := nameObj != nil, "the member name is not taken by an unconditional eat()"
+		if nameObj != nil {
+			mentions := func(e ast.Node) bool {
+				hit := false
+				ast.Inspect(e, func(y ast.Node) bool {
+					if id, ok := y.(*ast.Ident); ok && c.objOf(id) == nameObj {
+						hit = true
+					}
+					return !hit
+				})
+				return hit
+			}
+			g := c.buildCFG(pd.Body)
+			for _, call := range c.callsTo(pd.Body, "parser/ast.Member") {
+				for _, pc := range g.condsAt(call) {
+					if mentions(pc.e) {
+						ok9, why = false, "the member node is built only under a condition on the name token ("+src(pc.e)+")"
+					}
+				}
+			}
+			for _, a := range c.asserted(pd.Body) {
+				if mentions(a.cond) {
+					ok9, why = false, "an assertion restricts the name token ("+src(a.cond)+")"
+				}
+			}
+			for _, call := range c.callsTo(pd.Body, "parser.parser.syntaxAssert") {
+				if len(call.Args) > 1 && mentions(call.Args[1]) {
+					ok9, why = false, "a syntax assertion restricts the name token ("+src(call.Args[1])+")"
+				}
+				if len(call.Args) > 1 {
+					if id, isID := unparen(call.Args[1]).(*ast.Ident); isID {
+						if def, has := c.localDefs(pd.Body)[c.objOf(id)]; has && mentions(def) {
+							ok9, why = false, "a syntax assertion restricts the name token ("+src(def)+")"
+						}
+					}
+					// through locals: isName || oper.IsOp(name.Lexeme)
+					ast.Inspect(call.Args[1], func(y ast.Node) bool {
+						if id, isID := y.(*ast.Ident); isID {
+							if def, has := c.localDefs(pd.Body)[c.objOf(id)]; has && mentions(def) {
+								ok9, why = false, "a syntax assertion restricts the name token ("+src(call.Args[1])+")"
+							}
+						}
+						return true
+					})
+				}
+			}
+		}
+		c.R.Check(ok9, "parser.parseDot", "PARSE-9 any token after the dot is a member name", pd.Pos(), "name := p.eat(), no condition on its kind", why+": the method form `x.op(y)` of some registered operator no longer parses although `x op y` does")
+	} else {
+		c.R.Anchor("parser.parseDot")
+	}
 	// PARSE-6
 	if opLoop != nil {
 		for _, k := range []string{"parser/token.QUESTION", "parser/token.DOT", "parser/token.LEFT_PAREN", "parser/token.LEFT_BRACKET"} {
